@@ -142,6 +142,10 @@ struct FlushEv {
     batch: Vec<usize>,
     ok: bool,
     err: String,
+    /// every update that was in the buffer when this flush started (whatever its outcome:
+    /// with "took effect but reported an error" a failed flush may have published them)
+    attempted: Vec<usize>,
+    first_call: usize,
     calls_at_return: usize,
     expected_pending: usize,
     observed_pending: usize,
@@ -309,6 +313,8 @@ fn run_from(
             }
             return;
         }
+        let first_call = out.store.call_count();
+        let attempted = pending.clone();
         let r = run_now(p.flush());
         let calls_at_return = out.store.call_count();
         let expected = pending.len();
@@ -325,6 +331,8 @@ fn run_from(
                     batch: std::mem::take(pending),
                     ok: true,
                     err: String::new(),
+                    attempted,
+                    first_call,
                     calls_at_return,
                     expected_pending: expected,
                     observed_pending: p.pending_count(),
@@ -350,6 +358,8 @@ fn run_from(
                     batch,
                     ok: false,
                     err: e.to_string(),
+                    attempted,
+                    first_call,
                     calls_at_return,
                     expected_pending: expected,
                     observed_pending: observed,
@@ -568,8 +578,9 @@ enum Gc {
 }
 
 /// Tombstone garbage collection (C13's subject) as the explanation of a missing confirmed
-/// update `d`: a compaction had started before the crash position, and a confirmed LWW
-/// tombstone of the same key with a stamp >= d's (possibly d itself) is droppable by the
+/// update `d`: a compaction had started before the crash position, and an LWW tombstone of
+/// the same key that may be on the store (confirmed, or part of any flush attempt that had
+/// started) with a stamp >= d's (possibly d itself) is droppable by the
 /// implementation's rule `stamp.time < now_ms - ttl_ms`. What the recovered state shows for
 /// the key decides: production-like clock => the tombstone was younger than any TTL
 /// (KF-C13-02); simulated clock => accepted unless a client-visible value came back
@@ -589,12 +600,20 @@ fn gc_explains(
         return None;
     }
     let cutoff = w.cutoff();
-    let covered = confirmed.iter().any(|(_, t)| {
+    let droppable = |t: &ReplicationDelta| {
         t.key == d.key
             && t.value.is_tombstone()
             && t.value.timestamp.time < cutoff
             && t.value.timestamp >= d.value.timestamp
-    });
+    };
+    // a tombstone that may be on the store: confirmed, or in the batch of any flush attempt
+    // that had started (a flush whose rename took effect may still have reported an error)
+    let covered = confirmed.iter().any(|(_, t)| droppable(t))
+        || r.flushes
+            .iter()
+            .filter(|f| f.first_call < calls_done)
+            .flat_map(|f| f.attempted.iter())
+            .any(|&di| droppable(&r.deltas[di]));
     if !covered {
         return None;
     }
@@ -832,7 +851,10 @@ fn prepare(w: &Workload, restrict: bool) -> (Vec<Op>, bool) {
 
 fn fault_variants(op: OpKind) -> Vec<Fault> {
     match op {
-        OpKind::Put => vec![Fault::Fail, Fault::PartialThenFail(500)],
+        // EffectThenFail: the call took effect (object stored / removed / destination written)
+        // and still reported an error
+        OpKind::Put => vec![Fault::Fail, Fault::PartialThenFail(500), Fault::EffectThenFail],
+        OpKind::Rename | OpKind::Delete => vec![Fault::Fail, Fault::EffectThenFail],
         // read-side faults: the bytes come back damaged once, the stored object is intact
         OpKind::Get => vec![Fault::Fail, Fault::CorruptGet(500), Fault::TruncateGet(500)],
         _ => vec![Fault::Fail],
@@ -1197,6 +1219,7 @@ fn main() {
         &args,
     );
     s.assume("fault model: a store call completes, or fails with an error (a put possibly after storing a prefix of its payload), or the process dies during it (a put leaves a prefix under its key — also over an existing object; rename and delete are atomic). A put that RETURNS Ok has stored all its bytes: 'short write reported as success' (modelled by the in-tree SimulatedObjectStore) is outside the domain");
+    s.assume("third outcome per call: the operation TAKES EFFECT and still reports an error (timeout after commit): put = object fully stored + error; delete = object gone + error; rename = destination written, source still present + error (copy-then-delete as in the in-tree S3 store with the delete failing)");
     s.assume("injected errors are ErrorKind::Other (as SimulatedObjectStore's); a transient NotFound on the manifest (which load_or_create treats as 'no manifest yet') is not injected");
     s.assume("tombstone garbage collection is C13's subject: a confirmed LWW update may be absent from the recovered state iff a compaction had started and a confirmed tombstone of the same key with a stamp >= the update's is droppable by the implementation's rule (stamp.time < compactor_now_ms - ttl_ms); under the simulated clock that is accepted unless a client-visible value of the key came back (then KF-C13-03), under the production-like clock it is counted under KF-C13-02");
     s.assume("the Checkpoint op snapshots what a node recovered from the current store would hold (computed by the harness on a copy of the image) and covers every segment the manifest lists; each checkpoint object gets its own key (production keys them by wall-clock ms)");
@@ -1233,7 +1256,7 @@ fn main() {
     );
     s.run_cases(
         "workloads",
-        s.scale(1_500, 30_000),
+        s.scale(1_200, 24_000),
         || workload(if s.thorough() { 24 } else { 26 }),
         check_workload,
     );
